@@ -414,6 +414,8 @@ def _grid_cancel():
     out = []
     for _ in range(100):
         ns = [rnd.randint(0, N) if i < S else 0 for i in range(3)]
+        if P("L") is not None:
+            ns = list(P("L")) + [0] * (3 - len(P("L")))
         b = [P("b%d" % i) if P("b%d" % i) is not None else rnd.random() < 0.5 for i in range(3)]
         p0 = rnd.randint(1, N + 1)
         if P("op") in ("nlargest", "nsmallest", "enumerate"):
@@ -474,8 +476,8 @@ def jobs(tier):
             add("h_cancel", op=op, S=3, N=1, X=(1, 7), fls=["bare", fl, fl, fl], ffl=ffl)
             add("h_cancel", op=op, S=2, N=2, X=(1, 9), fls=[fl, "bare", fl, fl], ffl=ffl)
         for b0 in (False, True):
-            for x0 in ((1, 4), (5, 8), (9, 12)):
-                add("h_cancel", op="merge", S=3, N=2, X=x0, fl=fl, ffl=ffl, b0=b0, b1=False)
+            for L in ([0, 2, 1], [0, 1, 2], [2, 0, 1]):
+                add("h_cancel", op="merge", S=3, N=2, L=L, X=(1, 9), fl=fl, ffl=ffl, b0=b0, b1=False)
         add("h_cancel_scoped", fl=fl)
     add("h_cancel_scoped", fl="aitb")
     for fl, ffl in (("agen", "adef"), ("acls", "obj")):
